@@ -209,6 +209,45 @@ Section ValidatorProof.
       destruct (dirs_have n_inaccessible (ev_dirs v)); auto.
   Qed.
 
+  (* traverseOperationType *)
+  Definition accop (t : ty) (oj : option json) : bool :=
+    match oj with None => negb (is_nonnull t) | Some j => coercible_j d S j t end.
+
+  Lemma trav_op_iff : forall (named : name -> json -> path -> vstate -> vstate) B,
+      (forall n j p st, jnull j = false -> (jdepth j < B)%nat -> json_nodup j = true ->
+                        (named n j p st = None <-> st = None /\ coercible_j d S j (TNamed n) = true)) ->
+      forall t oj p st,
+        IU t ->
+        (forall j, oj = Some j -> (jdepth j < B)%nat /\ json_nodup j = true) ->
+        (trav_op q var named t oj p st = None <-> st = None /\ accop t oj = true).
+  Proof.
+    intros named B Hnamed. unfold IU.
+    induction t as [n|t' IH|t' IH]; intros oj p st HU Hoj.
+    - simpl. destruct oj as [j|]; simpl; [|tauto].
+      destruct (Hoj j eq_refl) as [Hd Hn].
+      destruct j; try (apply Hnamed; auto; fail).
+      rewrite coercible_j_eq. tauto.
+    - simpl. destruct oj as [j|]; simpl; [|tauto].
+      destruct (Hoj j eq_refl) as [Hd Hn].
+      destruct j; rewrite coercible_j_eq; simpl; try (unfold mk; split; [discriminate|intros [_ H]; discriminate]).
+      + tauto.
+      + rewrite json_nodup_arr in Hn. rewrite forallb_forall in Hn.
+        apply trav_elems_iff. intros x Hin p' st'.
+        rewrite (IH (Some x) p' st'); auto.
+        * simpl. tauto.
+        * intros j E. inversion E; subst. split; [|apply Hn; auto].
+          pose proof (jdepth_arr_in _ _ Hin). lia.
+    - simpl. destruct oj as [j|]; simpl.
+      + assert (Hup : q_upload_exempt q && bytes_eqb (named_of t') n_Upload = false).
+        { destruct HU as [HU|HU]; [rewrite HU; auto|]. simpl in HU. rewrite HU. apply andb_false_r. }
+        rewrite Hup. simpl. rewrite andb_true_r.
+        rewrite (coercible_j_eq d S j (TNonNull t')). change (jnull j) with (is_null j).
+        destruct (is_null j) eqn:En; simpl.
+        * unfold mk. split; [discriminate|intros [_ H]; discriminate].
+        * rewrite IH; auto. simpl. tauto.
+      + unfold mk. split; [discriminate|intros [_ H]; discriminate].
+  Qed.
+
   Hypothesis Hfields : fields_nodup S = true.
   Hypothesis HUs : q_upload_exempt q = false
                    \/ forall td f, In td (s_types S) -> In f (td_input_fields td) -> bytes_eqb (named_of (iv_type f)) n_Upload = false.
@@ -315,48 +354,10 @@ Section ValidatorProof.
              ++ destruct v; cbn [jnull negb];
                   try (rewrite Hst; rewrite andb_true_r; rewrite andb_true_iff; rewrite <- Hobj; tauto).
                 unfold mk. split; [discriminate|]. intros [_ H]. rewrite andb_false_r in H. discriminate H.
-             ++ unfold mk. split; [discriminate|]. intros [_ H]. rewrite andb_false_r in H. discriminate H.
+             ++ destruct v; unfold mk; (split; [discriminate|]; intros [_ H]; rewrite andb_false_r in H; discriminate H).
           -- rewrite Hst. rewrite andb_true_r. rewrite andb_true_iff. rewrite <- Hobj. tauto.
   Qed.
 
-  (* traverseOperationType *)
-  Definition accop (t : ty) (oj : option json) : bool :=
-    match oj with None => negb (is_nonnull t) | Some j => coercible_j d S j t end.
-
-  Lemma trav_op_iff : forall (named : name -> json -> path -> vstate -> vstate) B,
-      (forall n j p st, jnull j = false -> (jdepth j < B)%nat -> json_nodup j = true ->
-                        (named n j p st = None <-> st = None /\ coercible_j d S j (TNamed n) = true)) ->
-      forall t oj p st,
-        IU t ->
-        (forall j, oj = Some j -> (jdepth j < B)%nat /\ json_nodup j = true) ->
-        (trav_op q var named t oj p st = None <-> st = None /\ accop t oj = true).
-  Proof.
-    intros named B Hnamed. unfold IU.
-    induction t as [n|t' IH|t' IH]; intros oj p st HU Hoj.
-    - simpl. destruct oj as [j|]; simpl; [|tauto].
-      destruct (Hoj j eq_refl) as [Hd Hn].
-      destruct j; try (apply Hnamed; auto; fail).
-      rewrite coercible_j_eq. tauto.
-    - simpl. destruct oj as [j|]; simpl; [|tauto].
-      destruct (Hoj j eq_refl) as [Hd Hn].
-      destruct j; rewrite coercible_j_eq; simpl; try (unfold mk; split; [discriminate|intros [_ H]; discriminate]).
-      + tauto.
-      + rewrite json_nodup_arr in Hn. rewrite forallb_forall in Hn.
-        apply trav_elems_iff. intros x Hin p' st'.
-        rewrite (IH (Some x) p' st'); auto.
-        * simpl. tauto.
-        * intros j E. inversion E; subst. split; [|apply Hn; auto].
-          pose proof (jdepth_arr_in _ _ Hin). lia.
-    - simpl. destruct oj as [j|]; simpl.
-      + assert (Hup : q_upload_exempt q && bytes_eqb (named_of t') n_Upload = false).
-        { destruct HU as [HU|HU]; [rewrite HU; auto|]. simpl in HU. rewrite HU. apply andb_false_r. }
-        rewrite Hup. simpl. rewrite andb_true_r.
-        rewrite (coercible_j_eq d S j (TNonNull t')). rewrite <- is_null_jnull.
-        destruct (is_null j) eqn:En; simpl.
-        * unfold mk. split; [discriminate|intros [_ H]; discriminate].
-        * rewrite IH; auto. simpl. tauto.
-      + unfold mk. split; [discriminate|intros [_ H]; discriminate].
-  Qed.
 End ValidatorProof.
 
 (* ---- all variables ---- *)
